@@ -10,7 +10,8 @@ RULE = (
     "every degeneracy). Clauses evaluated by the harness on the returned step s: tangential solvers q(s) <= 0; "
     "normal solver: linearised violation at s <= at 0; geometry solvers |c + q(s)| >= |c|; bound-constrained "
     "tangential solver: q(s) <= (1-1e-6) q(s_C) with s_C the minimiser of q along the projected steepest-descent "
-    "direction at the origin within box and ball (first segment of the projected-gradient path); Cauchy geometry "
+    "direction at the origin within box and ball (first segment of the projected-gradient path), and for a "
+    "linear objective over a box inside the ball it reaches the minimising vertex; Cauchy geometry "
     "solver: |c + q(s)| > |c| whenever a feasible first-order improving direction exists. Non-trivial = bounds "
     "active at the origin in a coordinate whose gradient component is non-zero, or the box fits inside the ball "
     "(|xl|,|xu| all finite and the box diagonal <= radius); distinct = distinct spec hash"
@@ -110,6 +111,24 @@ def run_case(spec):
                          "decrease q(s_C) = %.6g of the projected-gradient Cauchy step (improve_tcg=%s, n=%d)"
                          % (qs, qc, sub.kw["improve_tcg"], n), cutoff=d15_cutoff(sub), qs=qs, qc=qc)
             out.label("cauchy-compared")
+        # linear objective over a box that fits inside the ball: the projected-gradient path ends at the
+        # vertex minimising g.s, and an active-set method that adds the bounds it meets one after the
+        # other must get there (each restart follows the remaining free coordinates)
+        if box_in_ball and not np.any(sub.H):
+            with np.errstate(invalid="ignore"):
+                qstar = float(np.sum(np.where(sub.g > 0, sub.g * xl, np.where(sub.g < 0, sub.g * xu, 0.0))))
+            tol3 = 1e3 * EPS * n * (sub.qmag(s) + abs(qstar))
+            if qstar < 0 and not d15_cutoff(sub):
+                out.label("linear-box-vertex-compared")
+                if qs > qstar * (1.0 - 1e-6) + tol3:
+                    # D15 again, after a restart: the gradient on the coordinates that have not reached their
+                    # bound is below the solvers' absolute cut-off
+                    target = np.where(sub.g > 0, xl, np.where(sub.g < 0, xu, 0.0))
+                    rest = np.where((s != target) & (sub.g != 0), sub.g, 0.0)
+                    cut = bool(rest @ rest <= 10 * EPS * n * max(1.0, float(np.linalg.norm(sub.g))))
+                    out.fail("C16.vertex", "linear objective over a box inside the trust region: the step achieves "
+                             "g.s = %.6g but the vertex of the box gives %.6g (n=%d, improve_tcg=%s)"
+                             % (qs, qstar, n, sub.kw["improve_tcg"]), qs=qs, qstar=qstar, cutoff=cut)
     if name == "normal":
         def viol(v):
             r1 = np.maximum(sub.aub @ v - sub.bub, 0.0)
@@ -176,7 +195,7 @@ def sig_d15(spec, fail):
     """D15: the truncated-CG solvers stop on an *absolute* small-gradient test
     (g.sd >= -10*eps*n*max(1,|g|)); for gradients below about 1e-7 they return the zero step although
     the Cauchy step decreases the model."""
-    return fail.clause == "C16.cauchy" and bool(fail.data.get("cutoff"))
+    return fail.clause in ("C16.cauchy", "C16.vertex") and bool(fail.data.get("cutoff"))
 
 
 SIGNATURES = {"tcg_absolute_small_gradient_cutoff": sig_d15}
